@@ -157,3 +157,42 @@ Proof.
   exists [HCloseRet 0; HRunExit (XOffer EDropped) None; HCloseCall 0]. eexists. split; [reflexivity|].
   cbn. tauto.
 Qed.
+
+(* ---- the leader's metadata reads (assignTopicPartitions) ---- *)
+Lemma leader_per_topic_spec : forall l n r, leader_per_topic l = (n, r) ->
+  n <= length l /\ (forall e, r = Some e -> In (MErr e) l) /\ (r = None -> n = length l /\ forall e, ~ In (MErr e) l).
+Proof.
+  induction l as [|a t IH]; intros n r H; cbn [leader_per_topic] in H.
+  - inversion H; subst. cbn. repeat split; try lia; try discriminate; try (intros e0 []); try tauto.
+  - destruct a.
+    + destruct (leader_per_topic t) as [n' r'] eqn:E. inversion H; subst. destruct (IH _ _ eq_refl) as (A & B & C).
+      cbn [length]. split; [lia|]. split.
+      * intros e He. right. apply B; exact He.
+      * intro Hn. destruct (C Hn) as [C1 C2]. split; [lia|]. intros e [X|X]; [discriminate|eapply C2; eauto].
+    + destruct (leader_per_topic t) as [n' r'] eqn:E. inversion H; subst. destruct (IH _ _ eq_refl) as (A & B & C).
+      cbn [length]. split; [lia|]. split.
+      * intros e He. right. apply B; exact He.
+      * intro Hn. destruct (C Hn) as [C1 C2]. split; [lia|]. intros e [X|X]; [discriminate|eapply C2; eauto].
+    + inversion H; subst. cbn [length]. split; [lia|]. split.
+      * intros e0 He. inversion He; subst. left. reflexivity.
+      * discriminate.
+Qed.
+
+Lemma leader_assign_spec : forall nt first per ld n, leader_assign nt first per = (ld, n) ->
+  1 <= n <= S nt /\ (1 < n -> first = MUnknown /\ 2 <= nt) /\
+  (forall e, ld = LeaderFail e -> first = MErr e \/ (first = MUnknown /\ In (MErr e) (firstn nt per))) /\
+  ld <> NotLeader.
+Proof.
+  intros nt first per ld n H. unfold leader_assign in H. destruct first.
+  - inversion H; subst. repeat split; try lia; try discriminate.
+  - destruct (Nat.leb 2 nt) eqn:L.
+    + destruct (leader_per_topic (firstn nt per)) as [k r] eqn:E.
+      destruct (leader_per_topic_spec _ _ _ E) as (A & B & _).
+      assert (Hl : length (firstn nt per) <= nt) by apply firstn_le_length.
+      apply Nat.leb_le in L. inversion H; subst. split; [lia|]. split; [intros _; split; [reflexivity|exact L]|].
+      split; [|destruct r; discriminate].
+      intros e He. right. split; [reflexivity|]. apply B. destruct r; [inversion He; reflexivity|discriminate].
+    + inversion H; subst. repeat split; try lia; try discriminate.
+  - inversion H; subst. split; [lia|]. split; [lia|]. split; [|discriminate].
+    intros e0 He. inversion He; subst. left. reflexivity.
+Qed.
